@@ -1175,6 +1175,11 @@ func init() {
 						must = "MUST"
 					}
 					fmt.Printf("  %s %-32s %-30s %s (%s)\n", must, cx.P.Pos(ev.Site.Pos()), ev.Kind, strings.Join(ev.Prefix, "|"), strings.Join(as, " ; "))
+					if os.Getenv("IRISLINT_FACTS") != "" {
+						for _, ft := range w.FactsAt(fr, ev.Site) {
+							fmt.Printf("        %v  %s\n", ft.Holds, trunc(ft.Text, 300))
+						}
+					}
 				}
 			})
 		}
